@@ -169,8 +169,11 @@ def rule_ep_pair(ctx):
             cb = clear[0]
             # no assignment can precede the clearing toggle, and every assignment is preceded by the test that guards it
             before = b.reachable_from(0, removed={cb}, include_start=True)
-            guards = [c for c in C.constraints_for(ix, b, sym, cb) if "en_passant_file" in c[0]]
-            g_ok = bool(guards) and all(("Some" in g[1] or True in g[1]) for g in guards)
+            allc = C.constraints_for(ix, b, sym, cb)
+            guards = [c for c in allc if "en_passant_file" in c[0]]
+            others = [c for c in allc if "en_passant_file" not in c[0]]
+            g_ok = bool(guards) and all(("Some" in g[1] or True in g[1]) for g in guards) and not others \
+                and mir.EXIT not in b.reachable_from(0, removed={guards[-1][2]}, include_start=True)
             gb = guards[-1][2] if guards else None
             assign_after = all(gb is not None and b.dominates(gb, ab) and ab not in b.reachable_from(0, removed={gb}, include_start=True) for ab in first_assign_blocks)
             no_assign_before = not any(cb in b.reachable_from(ab, include_start=False) for ab in first_assign_blocks)
@@ -265,9 +268,11 @@ def rule_castle_revert(ctx):
         cons = C.constraints_for(ix, b, sym, bi)
         ok = False
         detail = None
+        the_test = None
         for c in cons:
             e = c[3]
             if e[0] == "call" and (e[1].endswith("PartialEq::ne") or e[1].endswith("PartialEq>::ne") or e[1].endswith("PartialEq>::eq") or e[1].endswith("PartialEq::eq")):
+                the_test = c
                 want_true = e[1].endswith("ne")
                 a0, a1 = mir.strip_copies(e[2][0]), mir.strip_copies(e[2][1])
                 sides = [a0, a1]
@@ -278,6 +283,12 @@ def rule_castle_revert(ctx):
                     ok = True
         ctx.check(ok, "unmake_move:revert:%s" % k, "change_castling_rights(%s) iff popped.%s differs from the restored castle_status(%s)" % (k, KIND_FIELD.get(k), k), b.where(bi),
                   bad_what="the revert toggle for %s is not guarded by `popped.castling_rights.%s != castle_status(%s)` (found %s)" % (k, KIND_FIELD.get(k), k, detail))
+        # "iff": nothing but that comparison decides whether the toggle runs, and the comparison runs on every path
+        extra = [(c[0][:60], sorted(map(str, c[1]))) for c in cons if c is not the_test]
+        always = the_test is not None and mir.EXIT not in b.reachable_from(0, removed={the_test[2]}, include_start=True)
+        ctx.check(not extra and always, "unmake_move:revert-iff:%s" % k, "the revert toggle for %s depends on nothing but that comparison, which is evaluated on every path" % k, b.where(bi),
+                  bad_what="the revert toggle for %s is additionally conditioned on %s%s: when the right changed but this extra condition is false (e.g. a bishop, knight, queen or pawn captured the rook on its corner) the castling word stays toggled and key != from-scratch key after unmake"
+                  % (k, extra, "" if always else " (and the comparison is not evaluated on every path)"))
         if pops:
             ctx.check(b.dominates(pops[0][0], bi), "unmake_move:revert-after-pop:%s" % k, "the comparison is made after the record was popped (castle_status reads the restored top)", b.where(bi),
                       bad_what="the castling revert for %s runs before history.pop()" % k)
